@@ -5,13 +5,16 @@ package net
 
 import (
 	"context"
+	"net"
 	"time"
 
 	"github.com/fxamacker/cbor/v2"
 	"github.com/ipfs/boxo/blockservice"
+	"github.com/ipfs/go-cid"
 	"github.com/libp2p/go-libp2p/core/peer"
 	"github.com/libp2p/go-libp2p/p2p/net/swarm"
 	"github.com/sourcenetwork/corekv"
+	grpcpeer "google.golang.org/grpc/peer"
 
 	"github.com/sourcenetwork/defradb/internal/datastore"
 	"github.com/sourcenetwork/defradb/internal/keys"
@@ -103,4 +106,32 @@ func VerifSetSyncLinkTimeout(d time.Duration) time.Duration {
 	old := syncBlockLinkTimeout
 	syncBlockLinkTimeout = d
 	return old
+}
+
+type verifAddr string
+
+func (a verifAddr) Network() string { return "libp2p" }
+func (a verifAddr) String() string  { return string(a) }
+
+var _ net.Addr = verifAddr("")
+
+// VerifReceivePushLog hands a push-log request to the receive path of the peer exactly as the gRPC handler of a
+// replicator push does (processPushlog): decode, DAG sync with signature verification, merge event on success.
+func (p *Peer) VerifReceivePushLog(
+	ctx context.Context,
+	from peer.ID,
+	docID string,
+	head cid.Cid,
+	collectionID string,
+	block []byte,
+) error {
+	ctx = grpcpeer.NewContext(ctx, &grpcpeer.Peer{Addr: verifAddr(from.String())})
+	_, err := p.server.processPushlog(ctx, &pushLogRequest{
+		DocID:        docID,
+		CID:          head.Bytes(),
+		CollectionID: collectionID,
+		Creator:      from.String(),
+		Block:        block,
+	}, true)
+	return err
 }
